@@ -387,7 +387,7 @@ def history(draw):
     form = st.sampled_from(FORMS)
     add_op = st.fixed_dictionaries({"op": st.just("add"), "form": form, "items": items, "sub": sub})
     ops = st.one_of(
-        add_op, add_op, add_op, add_op, add_op, add_op,
+        add_op, add_op, add_op, add_op, add_op, add_op, add_op, add_op, add_op,
         st.fixed_dictionaries({"op": st.just("saveload"), "target": st.sampled_from(["file", "dir"])}),
         st.just({"op": "reopen"}),
         st.fixed_dictionaries({"op": st.just("side"), "kind": st.sampled_from(["source", "sink"]), "form": form,
@@ -396,7 +396,7 @@ def history(draw):
     )
     init = draw(st.one_of(st.none(), st.none(), st.fixed_dictionaries({"form": form, "items": items, "sub": sub})))
     return {"bundlify": draw(st.sampled_from([False, False, True])), "pool": pool, "init": init,
-            "ops": draw(st.lists(ops, min_size=1, max_size=14))}
+            "ops": draw(st.lists(ops, min_size=2, max_size=14))}
 
 
 def run(ctx):
@@ -420,7 +420,7 @@ def run(ctx):
         ctx.note(case, nt, cl)
         ctx.handle(case, fails)
 
-    core.run_given(ctx, history(), body, ctx.n(1500, 12000), label="c11-histories")
+    core.run_given(ctx, history(), body, ctx.n(1100, 9000), label="c11-histories")
     ctx.notes["generator-health"] = _health(ctx)
 
 
